@@ -23,8 +23,9 @@ ASSUMPTIONS = ['regexes that mix a look-around alternative with a consuming one 
                'only, not in the sequential-equals-simultaneous clause (their reading of a fragment start depends on the '
                'residue before it)',
                'the extra undigested span of partial digestion is accepted with the count the library gives it (0)',
-               'for build_spans called directly with every position a site the expected result is ambiguous '
-               '(non-specific rule or not), such layouts are decided at the digest level where the rule is known']
+               'for build_spans called directly with every position a site and WITHOUT the non_specific keyword the expected '
+               'result is ambiguous (non-specific rule or not); such layouts are decided when the keyword is given and at '
+               'the digest level, where the rule is known']
 LEVEL_TEXT = ('Every get_cleavage_sites/build_spans/digest execution is compared with a set-comprehension model; the '
               'small sub-spaces named in exhaustive_subspace are enumerated completely; held on the executions observed.')
 TECHNIQUE = 'runtime monitoring: post-conditions with an independent set model, exhaustive small-scope enumeration'
@@ -91,7 +92,10 @@ def install(ctx, st: State):
         all_sites = len(set(sites)) == n + 1
         c = st.case
         nonspec = None
-        if call.depth > 0 and c is not None and c.get('nonspecific') is not None:
+        if call.depth == 0 and call.kwargs.get('non_specific') is not None:
+            nonspec = bool(call.kwargs['non_specific'])      # the caller says which rule the sites come from
+            st.bs_direct += 1
+        elif call.depth > 0 and c is not None and c.get('nonspecific') is not None:
             nonspec = c['nonspecific']
             st.bs_nested += 1
         else:
@@ -333,7 +337,12 @@ def run(ctx):
                             ctx.begin({'via': 'build_spans', 'n': n, 'sites': sites, 'missed': missed, 'semi': semi,
                                        'min_len': lo, 'max_len': hi})
                             try:
-                                list(pt.build_spans(n, list(sites), missed, lo, hi, semi))
+                                if len(set(sites)) == n + 1 or rng.random() < 0.02:
+                                    # told which rule the sites come from (every position a site is not ambiguous then)
+                                    list(pt.build_spans(n, list(sites), missed, lo, hi, semi,
+                                                        non_specific=rng.random() < 0.3))
+                                else:
+                                    list(pt.build_spans(n, list(sites), missed, lo, hi, semi))
                             except Exception as ex:
                                 ctx.violation('build_spans-raises', {'exception': f'{type(ex).__name__}: {ex}'[:200]})
             inner = len([s for s in sites if 0 < s < n])
